@@ -27,7 +27,8 @@ func zzRefRemoveLeftmost(p []byte, h byte) []byte {
 
 // ZZ_C24_pools: alpha' per 8.2/8.3 for C=2 cores: pools of length 0, 1, 2, 7, 8 (core 0) and 1,
 // 8 (core 1) over a three-value alphabet (so duplicates occur), 0..2 guarantees with any core
-// and any authorizer (including ones absent from the pool), every slot; queues are the real
+// and any authorizer (including ones absent from the pool, and the very queue entry that the slot
+// selects for that core), every slot; queues are the real
 // size Q=80 with distinguishable entries. Result: prior pool minus the leftmost occurrence of
 // each used authorizer, plus queue[slot mod Q], last O entries; never more than O.
 //zz:workers=16 paths=60000
@@ -52,23 +53,29 @@ func ZZ_C24_pools() {
 			varphi[c][i][1] = byte(10 + c)
 		}
 	}
+	slot := types.TimeSlot(zzvt.U32("slot"))
+	qi := uint32(slot) % uint32(types.AuthQueueSize)
 	ng := zzvt.Range("guarantees", 0, 2)
 	gs := make(types.GuaranteesExtrinsic, ng)
 	for i := range gs {
 		core := zzvt.Range("core", 0, 1)
 		a := zzvt.U8("used")
-		zzvt.Assume(zzvt.And(a >= 1, a <= 4))
+		zzvt.Assume(zzvt.And(a >= 1, a <= 5))
 		gs[i].Report.CoreIndex = types.CoreIndex(core)
-		gs[i].Report.AuthorizerHash = types.OpaqueHash(zzAuth(a))
+		h := zzAuth(a)
+		if a == 5 {
+			// the authorizer that is about to enter this core's pool from the queue: it is not
+			// in the prior pool, so nothing is removed
+			h[0], h[1] = byte(100+qi), byte(10+core)
+		}
+		gs[i].Report.AuthorizerHash = types.OpaqueHash(h)
 		model[core] = zzRefRemoveLeftmost(model[core], a)
 	}
-	slot := types.TimeSlot(zzvt.U32("slot"))
 	out, err := STFAlpha2AlphaPrime(slot, gs, alpha, varphi)
 	zzvt.Assert(err == nil, "transition-succeeds")
 	if err != nil {
 		return
 	}
-	qi := uint32(slot) % uint32(types.AuthQueueSize)
 	for c := 0; c < 2; c++ {
 		want := model[c]
 		n := len(want) + 1
